@@ -52,6 +52,16 @@ def check_lists(m, ctx, d):
     ctx.count('list-line-corr', evaluations=len(terms), nontrivial_keys=[(c['row']['name'], c['u'], c['form']) for c in cases],
               outcome={k: sum(1 for c in cases if (c['obs'].get('code') or 'ok') == k) for k in {c['obs'].get('code') or 'ok' for c in cases}},
               lines_with_a_unit_suffix_accepted=accepted)
+    # should a line with unit suffixes ever be accepted, the stored numbers must denote what was written
+    for c in cases:
+        if any(c['suffix']) and c['obs']['status'] == 'ok' and c['form'] != 'out-of-range':
+            held = c['obs']['cur'][1]
+            want = [m.to_unit(d, x, c['u'], held) if s else x for x, s in zip(c['x'], c['suffix'])]
+            got = c['obs']['vals']
+            if len(got) != len(want) or any(w is None or abs(g - w) > F(1, 10 ** 6) * max(abs(g), abs(w)) for g, w in zip(got, want)):
+                ctx.violate('property', f'list:value:{c["row"]["name"]}:{c["u"]}', f'"{c["row"]["name"]}, {", ".join(c["elems"])}" is stored as '
+                            f'{[float(g) for g in got]} {held}', inp={'part': 'list', 'entry': f'{c["row"]["name"]}, ' + ', '.join(c['elems'])},
+                            expected=[float(w) if w is not None else None for w in want], observed=[float(g) for g in got])
     for i in bad[:5]:
         c = cases[i]
         ctx.violate('corr', f'corr:list-line:{c["row"]["name"]}:{c["u"]}:{c["form"]}', f'Coq model of the one-line list reader and the implementation '
